@@ -290,8 +290,30 @@ def run(params):
                     'missing': sorted(prog.iid(*i) for i in must - set(lr)),
                     'stop_point': prog.pstr(stop_pt)})
             if res.stops[-1] != 'stop:AUTOMATIC':
+                # known finding C43-F1, second face: a task at or before the
+                # point was already pooled, waiting on a parent beyond the
+                # point, when the command set it; if its other unsatisfied
+                # prerequisites are not beyond the point the stall check
+                # does see it and the run ends as a stall, not a shutdown
+                pr = []
+                snap = exit_snaps[-1][1] or first_snap
+                sp = (snap or {}).get('stop_point')
+                if snap and sp is not None and 'stall' in res.stops[-1]:
+                    waiting = blocked = 0
+                    for ident, d in snap['tasks'].items():
+                        if d['status'] != 'waiting' or (
+                                prog.ppoint(ident.split('/')[0]) >
+                                prog.ppoint(sp)):
+                            continue
+                        waiting += 1
+                        if any(not sat and prog.ppoint(k.split('/')[0]) >
+                               prog.ppoint(sp)
+                               for k, sat in d['prereqs'].items()):
+                            blocked += 1
+                    if waiting and waiting == blocked:
+                        pr = ['pooled_task_waits_on_parent_beyond_new_stop_point']
                 res.violate('no_auto_shutdown_at_stop_point', {
-                    'stops': res.stops})
+                    'stops': res.stops, 'predicates': pr})
             elif set_during_shutdown(res):
                 # the automatic shutdown had been decided (and the stop point
                 # question settled) before the command was actioned
